@@ -25,6 +25,22 @@ CLAIMED = {
         text="Every output coercer returns, for arbitrary resolver values (ResWf universe), a value conforming to the behaviour its closure denotes (Conf: non-null never null, lists of conforming items, leaves produced by the type's serialiser) or raises a well-formed exception that C02's contracts turn into null+error; get_output_coercer builds exactly the closure prescribed for the declared type; the five built-in scalars' coerce_output obey the C10 output laws.",
         ref="DESIGN.md section 4 C03",
         note="Custom scalar coerce_output opaque (Produced/ScOut_* uninterpreted); object and abstract completion (ObjConf/AbsConf) belong to C01; Engine.execute's catch-all is covered under C18; values with numeric dunder protocols are outside the value universe."),
+    'C15': dict(
+        text="Frame theorem of the request cone (execution/, coercers/, resolver factory/default, error helpers, directive executors, built-in directive hooks, introspection resolvers, engine request methods): every write site -- attribute/subscript store, augmented assignment, mutator call, setattr/del -- has a receiver allocated by the request or owned by it; arguments passed to callees that write through a parameter are owned by the caller; nothing owned by an exception escapes by reference from coerce_value; no module/class-level mutable object or memoiser exists outside the inventory. Requests therefore share only objects nobody writes, so interleaving them cannot change a response.",
+        ref="DESIGN.md section 4 C15-C17",
+        note="Back end: provenance checker pyvc/frame.py (syntactic effect analysis, flow-insensitive) instead of an SMT solver. Ownership of parameters is declared by name in contracts/frames.py; exemptions (idempotent @nonIntrospectable flag write, bake-time hook, fresh coercion errors) are listed as assumptions in the evidence. Interleavings are not enumerated; user callbacks are assumed not to mutate engine state."),
+    'C16': dict(
+        text="The parse/validate cone writes only the document under construction (Validators object and its tables); the execution cone never writes a document, a schema object or module state; no memoiser/global state outside the inventory; GraphQLSchema.__eq__ is full equality (name, root operation names, whole type table) and equal schemas hash equally (SMT contracts), so any memoiser keyed by (query, schema) is transparent.",
+        ref="DESIGN.md section 4 C15-C17",
+        note="As C15 for the frame obligations; functools.lru_cache / custom decorators assumed to be memoisers; determinism of the absent C parser assumed; Engine.cook's wiring of the decorator is not under contract."),
+    'C17': dict(
+        text="Registry frame: SchemaRegistry._schemas is only accessed through the entry of the schema name at hand (every occurrence checked syntactically), nobody else touches it, and the inventory of module-level / class-level mutable objects and memoising decorators of the package equals the recorded one -- new shared state (class-level dicts, caches) is a violation.",
+        ref="DESIGN.md section 4 C15-C17",
+        note="Back end: provenance checker; import-time side effects of user modules and the baking of built-in modules per schema name are not under contract."),
+    'C18': dict(
+        text="SMT contracts on Engine.execute (never raises, always a well-formed response for text or bytes queries), _perform_query (parsing/validation errors answer without executing), parse_and_validate_query (any parser/builder failure becomes non-empty errors), build_execution_context (GetOperation selection, abort iff selection or variable coercion fails, context fields), execute (aborted requests run nothing), build_response (errors key iff errors, one coerced entry per error), func_wrapper (user coercer awaited exactly once with the exception and its coerced value), TartifletteError.coerce_value and Location.collect_value (entry shape).",
+        ref="DESIGN.md section 4 C18",
+        note="The user error coercer returns normally; bytes are opaque non-str values; 'locations lie inside the query text' is not decided (absent C parser)."),
 }
 
 REASON_PENDING = "contracts for this property are not in place in this revision (DESIGN.md section 8 delivery order); no other technique is substituted"
